@@ -1,6 +1,7 @@
 import Proofs.LoopGen
 import Proofs.LoopLearn
 import Proofs.LoopGenEq
+import Proofs.EvoStepGenEq
 
 /-!
 # C20 — training loops keep step and population accounting right
@@ -600,5 +601,786 @@ example : (LoopGen.Off.run (LoopGenEq.params exCfg true true) (LoopGenEq.ops exC
     [.train, .test, .fitnessAppend, .stepsAppend, .select, .save] := by decide
 example : ∀ a ∈ exGen.pop, a.cur = gEnv exCfg.kind a ∧ gEnv exCfg.kind a = stride exCfg * gIts exCfg.kind a := by
   decide
+
+open Evo
+
+/-! ### 10. the evolution step (`tournament_selection_and_mutation` + `Mutations.mutation`)
+
+Theorems over `Loop.Evo` (`Model/Loop.lean`), for every population, every agent type and every type of mutation
+methods.  `TournamentSelection.select` and the per-individual mutation methods are parameters; what is assumed of them
+is stated as hypotheses where it is used: `select` returns a population of the size it was given
+(`Proofs/TournGenEq.lean: gen_select_eq` + `Proofs/TournamentSelect.lean: newPop_length`), a mutation method and the
+per-individual tail keep `index`, `steps`, `fitness` (`obs`; property C02, `Proofs/MutWireGenEq.lean`), `no_mutation`
+keeps everything the elite is compared by (`key`).  On the accelerator path `unwrap_models` / `wrap_models` /
+`save_checkpoint` / `load_checkpoint` are assumed to be the identity on the observed fields (hypotheses `hu`, `hw`). -/
+
+/-- the population `select` is given: on the accelerator path every member is unwrapped first -/
+def Evo.entering {A M : Type} (ops : Ops A M) (accel : Option Bool) (pop : List A) : List A :=
+  match accel with | none => pop | some _ => pop.map ops.unwrap
+/-- what is returned: on the accelerator path every member is wrapped again -/
+def Evo.leaving {A M : Type} (ops : Ops A M) (accel : Option Bool) (res : List A) : List A :=
+  match accel with | none => res | some _ => res.map ops.wrap
+
+theorem Evo.entering_length {A M : Type} (ops : Ops A M) (accel : Option Bool) (pop : List A) :
+    (entering ops accel pop).length = pop.length := by cases accel <;> simp [entering]
+theorem Evo.leaving_length {A M : Type} (ops : Ops A M) (accel : Option Bool) (res : List A) :
+    (leaving ops accel res).length = res.length := by cases accel <;> simp [leaving]
+
+theorem Evo.drawOk_length {M : Type} [BEq M] {opts : List M} {p : List Rat} {n : Nat} {d : List M}
+    (h : drawOk opts p n d = true) : d.length = n := by
+  simp only [drawOk, Bool.and_eq_true, decide_eq_true_eq] at h
+  exact h.1.1
+
+theorem Evo.applied_length {M : Type} {cfg : MutCfg M} {d ms : List M} (h : applied cfg d = some ms) :
+    ms.length = d.length := by
+  unfold applied at h
+  split at h
+  · cases h; rfl
+  · cases d with
+    | nil => cases h
+    | cons _ r => cases h; rfl
+
+theorem Evo.mutateWith_length {A M : Type} (ops : Ops A M) (ms : List M) (pop : List A) (h : ms.length = pop.length) :
+    (mutateWith ops ms pop).length = pop.length := by
+  simp [mutateWith, h]
+
+/-- what a successful `Mutations.mutation` returns -/
+theorem Evo.mutation_some {A M : Type} [BEq M] {ops : Ops A M} {cfg : MutCfg M} {pre : Bool} {d : List M}
+    {pop res : List A} (h : mutation ops cfg pre d pop = some res) :
+    ∃ ms, applied cfg d = some ms ∧ res = mutateWith ops ms pop ∧ ms.length = pop.length ∧
+      drawOk (optionsOf cfg pre) (probaOf cfg pre) pop.length d = true := by
+  unfold mutation at h
+  split at h
+  · rename_i hd
+    cases ha : applied cfg d with
+    | none => rw [ha] at h; cases h
+    | some ms =>
+      rw [ha] at h
+      cases h
+      exact ⟨ms, rfl, rfl, by rw [applied_length ha, drawOk_length hd], hd⟩
+  · cases h
+
+/-- the shape of every successful evolution step on a process that selects (no accelerator, or the main process):
+    the result is the MUTATED SELECTED population — `select` is given the (unwrapped) population, the methods drawn
+    for the selected population are applied to ITS members in order, and that list is returned (wrapped) -/
+theorem Evo.evoStep_some {A M : Type} [BEq M] {ops : Ops A M} {cfg : MutCfg M} {d : List A → List M}
+    {select : List A → Option (A × List A)} {pop : List A} {envName : String} {algo elitePath : Option String}
+    {saveElite : Bool} {accel : Option Bool} {llm : Bool} {res : List A} {ev : List (Ev A)}
+    (hacc : accel ≠ some false)
+    (h : evoStep ops select (fun p => mutation ops cfg false (d p) p) pop envName algo elitePath saveElite accel llm
+      = some (res, ev)) :
+    ∃ elite sel ms, select (entering ops accel pop) = some (elite, sel) ∧ applied cfg (d sel) = some ms ∧
+      ms.length = sel.length ∧ res = leaving ops accel (mutateWith ops ms sel) := by
+  unfold evoStep at h
+  split at h
+  · cases h
+  · rename_i al _
+    cases accel with
+    | none =>
+      simp only at h
+      cases hs : select pop with
+      | none => rw [hs] at h; cases h
+      | some es =>
+        obtain ⟨elite, sel⟩ := es
+        rw [hs] at h
+        simp only at h
+        cases hm : mutation ops cfg false (d sel) sel with
+        | none => rw [hm] at h; cases h
+        | some r =>
+          rw [hm] at h
+          cases h
+          obtain ⟨ms, h1, h2, h3, _⟩ := mutation_some hm
+          exact ⟨elite, sel, ms, by simpa [entering] using hs, h1, h3, by simp [leaving, h2]⟩
+    | some b =>
+      cases b with
+      | false => exact absurd rfl hacc
+      | true =>
+        simp only at h
+        cases hs : select (pop.map ops.unwrap) with
+        | none => rw [hs] at h; cases h
+        | some es =>
+          obtain ⟨elite, sel⟩ := es
+          rw [hs] at h
+          simp only at h
+          cases hm : mutation ops cfg false (d sel) sel with
+          | none => rw [hm] at h; cases h
+          | some r =>
+            rw [hm] at h
+            cases h
+            obtain ⟨ms, h1, h2, h3, _⟩ := mutation_some hm
+            exact ⟨elite, sel, ms, by simpa [entering] using hs, h1, h3, by simp [leaving, h2]⟩
+
+/-- (i) the returned population has the size of the population handed in — on every path, including the processes
+    that only reload -/
+theorem C20_evostep_size {A M : Type} [BEq M] (ops : Ops A M) (cfg : MutCfg M) (d : List A → List M)
+    (select : List A → Option (A × List A))
+    (hsel : ∀ p e s, select p = some (e, s) → s.length = p.length)
+    (pop : List A) (envName : String) (algo elitePath : Option String) (saveElite : Bool) (accel : Option Bool)
+    (llm : Bool) (res : List A) (ev : List (Ev A))
+    (h : evoStep ops select (fun p => mutation ops cfg false (d p) p) pop envName algo elitePath saveElite accel llm
+      = some (res, ev)) : res.length = pop.length := by
+  by_cases hacc : accel = some false
+  · subst hacc
+    unfold evoStep at h
+    split at h
+    · cases h
+    · simp only at h
+      cases h; simp
+  · obtain ⟨elite, sel, ms, hs, _, hl, rfl⟩ := Evo.evoStep_some hacc h
+    rw [Evo.leaving_length, Evo.mutateWith_length ops ms sel hl, hsel _ _ _ hs, Evo.entering_length]
+
+/-- (ii) the result is the mutated SELECTED population, member by member: member `i` of what is returned is
+    `wrap (post (method_i (selected_i)))` — never a member of the old population, never an unmutated copy -/
+theorem C20_evostep_mutates_selected {A M : Type} [BEq M] (ops : Ops A M) (cfg : MutCfg M) (d : List A → List M)
+    (select : List A → Option (A × List A)) (pop : List A) (envName : String) (algo elitePath : Option String)
+    (saveElite : Bool) (accel : Option Bool) (llm : Bool) (res : List A) (ev : List (Ev A))
+    (hacc : accel ≠ some false)
+    (h : evoStep ops select (fun p => mutation ops cfg false (d p) p) pop envName algo elitePath saveElite accel llm
+      = some (res, ev)) :
+    ∃ (elite : A) (sel : List A) (ms : List M),
+      select (Evo.entering ops accel pop) = some (elite, sel) ∧ applied cfg (d sel) = some ms ∧
+      res.length = sel.length ∧
+      ∀ i : Nat, res[i]? = (match ms[i]?, sel[i]? with
+        | some m, some a => (Evo.leaving ops accel [ops.post (ops.call m a)]).head?
+        | _, _ => none) := by
+  obtain ⟨elite, sel, ms, hs, ha, hl, rfl⟩ := Evo.evoStep_some hacc h
+  refine ⟨elite, sel, ms, hs, ha, by rw [Evo.leaving_length, Evo.mutateWith_length ops ms sel hl], fun i => ?_⟩
+  cases accel with
+  | none =>
+    simp only [Evo.leaving, mutateWith, List.getElem?_zipWith]
+    cases ms[i]? <;> cases sel[i]? <;> simp
+  | some b =>
+    simp only [Evo.leaving, mutateWith, List.getElem?_map, List.getElem?_zipWith]
+    cases ms[i]? <;> cases sel[i]? <;> simp
+
+/-- (iii) with `mutate_elite = False` member 0 of the result is the selected member 0 (with elitism: select's clone
+    of the elite) put through `no_mutation` and the per-individual tail only; whatever these two keep (`key`: the
+    index, the `fitness` and `steps` histories as `select` left them, the evaluation weights) is what member 0 of
+    the selected population had -/
+theorem C20_evostep_elite_unmutated {A M K : Type} [BEq M] (ops : Ops A M) (cfg : MutCfg M) (d : List A → List M)
+    (select : List A → Option (A × List A)) (pop : List A) (envName : String) (algo elitePath : Option String)
+    (saveElite : Bool) (llm : Bool) (res : List A) (ev : List (Ev A)) (hme : cfg.mutateElite = false)
+    (key : A → K) (hno : ∀ a, key (ops.call cfg.noMut a) = key a) (hpost : ∀ a, key (ops.post a) = key a)
+    (h : evoStep ops select (fun p => mutation ops cfg false (d p) p) pop envName algo elitePath saveElite none llm
+      = some (res, ev)) :
+    ∃ elite sel, select pop = some (elite, sel) ∧
+      res.head? = sel.head?.map (fun a => ops.post (ops.call cfg.noMut a)) ∧
+      res.head?.map key = sel.head?.map key := by
+  obtain ⟨elite, sel, ms, hs, ha, hl, rfl⟩ := Evo.evoStep_some (by simp) h
+  have hms : ∃ r, ms = cfg.noMut :: r := by
+    unfold applied at ha
+    rw [hme] at ha
+    simp only [Bool.false_eq_true, if_false] at ha
+    cases hd : d sel with
+    | nil => rw [hd] at ha; cases ha
+    | cons x r => rw [hd] at ha; cases ha; exact ⟨r, rfl⟩
+  obtain ⟨r, rfl⟩ := hms
+  have hhead : (Evo.leaving ops none (mutateWith ops (cfg.noMut :: r) sel)).head? =
+      sel.head?.map (fun a => ops.post (ops.call cfg.noMut a)) := by
+    cases sel with
+    | nil => simp at hl
+    | cons a t => simp [Evo.leaving, mutateWith]
+  refine ⟨elite, sel, by simpa [Evo.entering] using hs, hhead, ?_⟩
+  rw [hhead]
+  cases sel.head? <;> simp [hno, hpost]
+
+/-- (iv) the evolution step does not touch the bookkeeping: whatever every mutation method, the per-individual tail
+    and (un)wrapping keep (`obs`: `index`, the `steps` list, the `fitness` list) is, member by member, what the
+    selected population had — so the step counters and fitness histories the loop-level accounting theorems talk about
+    are those `select` handed over -/
+theorem C20_evostep_bookkeeping_untouched {A M O : Type} [BEq M] (ops : Ops A M) (cfg : MutCfg M)
+    (d : List A → List M) (select : List A → Option (A × List A)) (pop : List A) (envName : String)
+    (algo elitePath : Option String) (saveElite : Bool) (accel : Option Bool) (llm : Bool) (res : List A)
+    (ev : List (Ev A)) (hacc : accel ≠ some false)
+    (obs : A → O) (hcall : ∀ m a, obs (ops.call m a) = obs a) (hpost : ∀ a, obs (ops.post a) = obs a)
+    (hw : ∀ a, obs (ops.wrap a) = obs a)
+    (h : evoStep ops select (fun p => mutation ops cfg false (d p) p) pop envName algo elitePath saveElite accel llm
+      = some (res, ev)) :
+    ∃ elite sel, select (Evo.entering ops accel pop) = some (elite, sel) ∧ res.map obs = sel.map obs := by
+  obtain ⟨elite, sel, ms, hs, _, hl, rfl⟩ := Evo.evoStep_some hacc h
+  refine ⟨elite, sel, hs, ?_⟩
+  have hz : ∀ (ms : List M) (sel : List A), ms.length = sel.length →
+      (mutateWith ops ms sel).map obs = sel.map obs := by
+    intro ms
+    induction ms with
+    | nil => intro sel h; cases sel <;> simp_all [mutateWith]
+    | cons m ms ih =>
+      intro sel h
+      cases sel with
+      | nil => simp at h
+      | cons a t =>
+        have := ih t (by simpa using h)
+        simp only [mutateWith] at this
+        simp [mutateWith, hcall, hpost, this]
+  cases accel with
+  | none => simpa [Evo.leaving] using hz ms sel hl
+  | some b =>
+    have hc : (obs ∘ ops.wrap) = obs := funext hw
+    simp only [Evo.leaving, List.map_map, hc]
+    exact hz ms sel hl
+
+/-- (v) `pre_training_mut = True` draws from the pre-training option list with the pre-training probabilities (as
+    coded: the list `get_mutations_options(pretraining=True)` built): every method applied is one of those options
+    with a positive probability — except entry 0, which is `no_mutation` when `mutate_elite = False` — and the
+    result is again in the order of the population -/
+theorem C20_evostep_pretraining_options {A M : Type} [BEq M] [LawfulBEq M] (ops : Ops A M) (cfg : MutCfg M)
+    (d : List M) (pop res : List A) (h : mutation ops cfg true d pop = some res) :
+    ∃ ms, res = mutateWith ops ms pop ∧ ms.length = pop.length ∧ res.length = pop.length ∧
+      ∀ i m, ms[i]? = some m →
+        (i = 0 ∧ cfg.mutateElite = false ∧ m = cfg.noMut) ∨
+        (∃ q, (m, q) ∈ List.zip cfg.preOptions cfg.preProba ∧ 0 < q) := by
+  obtain ⟨ms, ha, rfl, hl, hd⟩ := Evo.mutation_some h
+  refine ⟨ms, rfl, hl, Evo.mutateWith_length ops ms pop hl, fun i m hm => ?_⟩
+  have hmem : ∀ m ∈ d, ∃ q, (m, q) ∈ List.zip cfg.preOptions cfg.preProba ∧ 0 < q := by
+    intro m hm
+    simp only [drawOk, optionsOf, probaOf, if_true, Bool.and_eq_true, decide_eq_true_eq, List.all_eq_true,
+      List.any_eq_true, beq_iff_eq] at hd
+    obtain ⟨⟨m', q⟩, hin, heq, hq⟩ := hd.2 m hm
+    simp only at heq hq
+    subst heq
+    exact ⟨q, hin, hq⟩
+  unfold applied at ha
+  split at ha
+  · cases ha
+    exact Or.inr (hmem m (List.mem_of_getElem? hm))
+  · rename_i hme
+    cases d with
+    | nil => cases ha
+    | cons x r =>
+      cases ha
+      cases i with
+      | zero =>
+        simp only [List.getElem?_cons_zero, Option.some.injEq] at hm
+        exact Or.inl ⟨rfl, by simpa using hme, hm.symm⟩
+      | succ j =>
+        simp only [List.getElem?_cons_succ] at hm
+        exact Or.inr (hmem m (List.mem_cons_of_mem _ (List.mem_of_getElem? hm)))
+
+/-- on a process that is not the main one nothing is selected and `elite` is never bound: the step does not touch
+    it — whatever `save_elite` says it writes no file and returns its own old members, unwrapped, reloaded from the
+    files the main process wrote for their positions, wrapped (it used to raise UnboundLocalError with
+    `save_elite=True`; fixed in /repo 8b078ab) -/
+theorem C20_evostep_other_process_reloads {A M : Type} (ops : Ops A M)
+    (select : List A → Option (A × List A)) (mutate : List A → Option (List A)) (pop : List A) (envName : String)
+    (algo : String) (elitePath : Option String) (saveElite llm : Bool) :
+    evoStep ops select mutate pop envName (some algo) elitePath saveElite (some false) llm =
+      some (((pop.map ops.unwrap).mapIdx (fun i a => ops.load a (tempPath envName algo i))).map ops.wrap, []) := rfl
+
+/-- the temporary files of the accelerator path: the main process parks member `i` of the result in
+    `models/<env_name>/<algo>_<i>.pt` -/
+def Evo.tempEvents {A : Type} (accel : Option Bool) (envName algo : String) (r : List A) : List (Ev A) :=
+  match accel with
+  | none => []
+  | some _ => r.mapIdx (fun i a => Ev.save a (tempPath envName algo i))
+
+/-- every successful or failing run of the step on a process that selects, spelled out: if `select` and
+    `mutation.mutation` return, the step RETURNS a population, and the files written are the main process's temporary
+    files (accelerator only) followed by `eliteEvents`: exactly one save of the elite that `select` returned iff
+    `save_elite`, none otherwise -/
+theorem C20_evostep_returns_and_saves {A M : Type} (ops : Ops A M) (select : List A → Option (A × List A))
+    (mutate : List A → Option (List A)) (pop : List A) (envName algo : String) (elitePath : Option String)
+    (saveElite : Bool) (accel : Option Bool) (llm : Bool) (hacc : accel ≠ some false) (elite : A) (sel r : List A)
+    (hs : select (Evo.entering ops accel pop) = some (elite, sel)) (hm : mutate sel = some r) :
+    evoStep ops select mutate pop envName (some algo) elitePath saveElite accel llm =
+      some (Evo.leaving ops accel r,
+        Evo.tempEvents accel envName algo r ++ eliteEvents saveElite llm envName algo elitePath elite) ∧
+    (eliteEvents saveElite llm envName algo elitePath elite).length = (if saveElite then 1 else 0) ∧
+    (∀ e ∈ eliteEvents saveElite llm envName algo elitePath elite,
+      e = Ev.saveLLM elite elitePath ∨ e = Ev.save elite (elitePathOf envName algo elitePath)) := by
+  refine ⟨?_, ?_, ?_⟩
+  · cases accel with
+    | none =>
+      simp only [Evo.entering] at hs
+      simp [evoStep, hs, hm, Evo.leaving, Evo.tempEvents]
+    | some b =>
+      cases b with
+      | false => exact absurd rfl hacc
+      | true =>
+        simp only [Evo.entering] at hs
+        simp [evoStep, hs, hm, Evo.leaving, Evo.tempEvents]
+  · cases saveElite <;> cases llm <;> simp [eliteEvents]
+  · intro e he
+    cases saveElite <;> cases llm <;> simp [eliteEvents] at he <;> simp [he]
+
+/-- the step as found (before /repo 8b078ab): a process that is not the main one raised on `save_elite=True`
+    (`elite` unbound) for EVERY population — it did not return a population; the repaired step does
+    (`C20_evostep_other_process_reloads`) -/
+theorem C20_evostep_as_found_save_elite_witness :
+    ¬ ∀ (pop : List Nat), ∃ r, evoStepAsFound (M := Nat) ⟨fun _ => "A", id, id, fun a _ => a, fun _ a => a, id⟩
+        (fun p => some (0, p)) (fun p => some p) pop "Env" (some "A") none true (some false) false = some r := by
+  intro h
+  obtain ⟨r, hr⟩ := h [1, 2]
+  simp [evoStepAsFound] at hr
+
+/-! ### 11. the evolution step, over the definitions generated from the source
+
+`Gen/EvoStepGen.lean` is generated by `harness/py2lean_evostep.py` from the source text of
+`tournament_selection_and_mutation` (agilerl/utils/utils.py) and of `Mutations.mutation` (agilerl/hpo/mutation.py);
+`Proofs/EvoStepGenEq.lean` proves them equal to `Loop.Evo.evoStep` / `Loop.Evo.mutation`.  The theorems of section 10
+restated over the generated step calling the generated `Mutations.mutation` (as the training loops do:
+`pre_training_mut` at its default), `d p` = the `rng.choice` draw for the population `p`. -/
+
+open EvoStepGen EvoStepGenEq
+
+/-- a successful run of the generated step is a successful run of the model's step -/
+theorem gen_evostep_some {A M : Type} [BEq M] {o : AgentOps A M} {s : Mutations M} {d : List A → List M}
+    {pop : List A} {select : List A → Option (A × List A)} {envName : String} {algo elitePath : Option String}
+    {saveElite : Bool} {accel : Option Accelerator} {llm : Bool} {res : List A} {ev : List (EvoStepGen.Ev A)}
+    (h : tournament_selection_and_mutation o pop select (fun p => Mutations.mutation o s p false (d p))
+      envName algo elitePath saveElite accel llm = some (res, ev)) :
+    evoStep (opsM o) select (fun p => Evo.mutation (opsM o) (cfgM s) false (d p) p) pop envName algo elitePath
+      saveElite (accelM accel) llm = some (res, ev.map evM) := by
+  rw [← gen_evostep_eq, h]; rfl
+
+/-- over the generated code, all paths: the generated step (calling the generated `Mutations.mutation`) IS the
+    model's step -/
+theorem C20_source_translation_evostep_eq {A M : Type} [BEq M] (o : AgentOps A M) (s : Mutations M)
+    (d : List A → List M) (pop : List A) (select : List A → Option (A × List A)) (envName : String)
+    (algo elitePath : Option String) (saveElite : Bool) (accel : Option Accelerator) (llm : Bool) :
+    resM (tournament_selection_and_mutation o pop select (fun p => Mutations.mutation o s p false (d p))
+        envName algo elitePath saveElite accel llm) =
+      evoStep (opsM o) select (fun p => Evo.mutation (opsM o) (cfgM s) false (d p) p) pop envName algo
+        elitePath saveElite (accelM accel) llm :=
+  gen_evostep_eq o s d pop select envName algo elitePath saveElite accel llm
+
+/-- over the generated code: (i) the returned population has the size of the one handed in -/
+theorem C20_source_translation_evostep_size {A M : Type} [BEq M] (o : AgentOps A M) (s : Mutations M)
+    (d : List A → List M) (select : List A → Option (A × List A))
+    (hsel : ∀ p e sl, select p = some (e, sl) → sl.length = p.length)
+    (pop : List A) (envName : String) (algo elitePath : Option String) (saveElite : Bool)
+    (accel : Option Accelerator) (llm : Bool) (res : List A) (ev : List (EvoStepGen.Ev A))
+    (h : tournament_selection_and_mutation o pop select (fun p => Mutations.mutation o s p false (d p))
+      envName algo elitePath saveElite accel llm = some (res, ev)) : res.length = pop.length :=
+  C20_evostep_size (opsM o) (cfgM s) d select hsel pop envName algo elitePath saveElite (accelM accel) llm res _
+    (gen_evostep_some h)
+
+/-- over the generated code: (ii) what is returned is the mutated SELECTED population: member `i` is
+    `wrap_models (post (choice_i (selected_i)))` (no wrapping without accelerator) -/
+theorem C20_source_translation_evostep_mutates_selected {A M : Type} [BEq M] (o : AgentOps A M) (s : Mutations M)
+    (d : List A → List M) (select : List A → Option (A × List A)) (pop : List A) (envName : String)
+    (algo elitePath : Option String) (saveElite : Bool) (accel : Option Accelerator) (llm : Bool) (res : List A)
+    (ev : List (EvoStepGen.Ev A)) (hacc : ∀ a, accel = some a → a.is_main_process = true)
+    (h : tournament_selection_and_mutation o pop select (fun p => Mutations.mutation o s p false (d p))
+      envName algo elitePath saveElite accel llm = some (res, ev)) :
+    ∃ (elite : A) (sel : List A) (ms : List M),
+      select (Evo.entering (opsM o) (accelM accel) pop) = some (elite, sel) ∧
+      applied (cfgM s) (d sel) = some ms ∧ res.length = sel.length ∧
+      ∀ i : Nat, res[i]? = (match ms[i]?, sel[i]? with
+        | some m, some a => (Evo.leaving (opsM o) (accelM accel) [o.post (o.call m a)]).head?
+        | _, _ => none) := by
+  have hne : accelM accel ≠ some false := by
+    cases accel with
+    | none => simp [accelM]
+    | some a => simp [accelM, hacc a rfl]
+  exact C20_evostep_mutates_selected (opsM o) (cfgM s) d select pop envName algo elitePath saveElite (accelM accel)
+    llm res _ hne (gen_evostep_some h)
+
+/-- over the generated code: (iii) `mutate_elite = False` ⇒ member 0 of the result is select's member 0 (the elite's
+    clone) put through `no_mutation` and the per-individual tail only, and carries whatever those keep -/
+theorem C20_source_translation_evostep_elite_unmutated {A M K : Type} [BEq M] (o : AgentOps A M) (s : Mutations M)
+    (d : List A → List M) (select : List A → Option (A × List A)) (pop : List A) (envName : String)
+    (algo elitePath : Option String) (saveElite : Bool) (llm : Bool) (res : List A) (ev : List (EvoStepGen.Ev A))
+    (hme : s.mutate_elite = false) (key : A → K) (hno : ∀ a, key (o.call s.no_mutation a) = key a)
+    (hpost : ∀ a, key (o.post a) = key a)
+    (h : tournament_selection_and_mutation o pop select (fun p => Mutations.mutation o s p false (d p))
+      envName algo elitePath saveElite none llm = some (res, ev)) :
+    ∃ elite sel, select pop = some (elite, sel) ∧
+      res.head? = sel.head?.map (fun a => o.post (o.call s.no_mutation a)) ∧
+      res.head?.map key = sel.head?.map key :=
+  C20_evostep_elite_unmutated (opsM o) (cfgM s) d select pop envName algo elitePath saveElite llm res _ hme key hno
+    hpost (gen_evostep_some (accel := none) h)
+
+/-- over the generated code: (iv) `index`, `steps`, `fitness` (anything the mutation methods, the tail and
+    `wrap_models` keep) of every member are those of the selected population -/
+theorem C20_source_translation_evostep_bookkeeping_untouched {A M O : Type} [BEq M] (o : AgentOps A M)
+    (s : Mutations M) (d : List A → List M) (select : List A → Option (A × List A)) (pop : List A)
+    (envName : String) (algo elitePath : Option String) (saveElite : Bool) (accel : Option Accelerator) (llm : Bool)
+    (res : List A) (ev : List (EvoStepGen.Ev A)) (hacc : ∀ a, accel = some a → a.is_main_process = true)
+    (obs : A → O) (hcall : ∀ m a, obs (o.call m a) = obs a) (hpost : ∀ a, obs (o.post a) = obs a)
+    (hw : ∀ a, obs (o.wrap_models a) = obs a)
+    (h : tournament_selection_and_mutation o pop select (fun p => Mutations.mutation o s p false (d p))
+      envName algo elitePath saveElite accel llm = some (res, ev)) :
+    ∃ elite sel, select (Evo.entering (opsM o) (accelM accel) pop) = some (elite, sel) ∧
+      res.map obs = sel.map obs := by
+  have hne : accelM accel ≠ some false := by
+    cases accel with
+    | none => simp [accelM]
+    | some a => simp [accelM, hacc a rfl]
+  exact C20_evostep_bookkeeping_untouched (opsM o) (cfgM s) d select pop envName algo elitePath saveElite
+    (accelM accel) llm res _ hne obs hcall hpost hw (gen_evostep_some h)
+
+/-- over the generated code: (v) `Mutations.mutation(population, pre_training_mut=True)` applies only methods of
+    `self.pretraining_mut_options` that have a positive `self.pretraining_mut_proba` (entry 0: `no_mutation` when
+    `mutate_elite = False`), and returns the members in the order of the population -/
+theorem C20_source_translation_evostep_pretraining_options {A M : Type} [BEq M] [LawfulBEq M] (o : AgentOps A M)
+    (s : Mutations M) (d : List M) (pop res : List A) (h : Mutations.mutation o s pop true d = some res) :
+    ∃ ms, res = List.zipWith (fun m a => o.post (o.call m a)) ms pop ∧ ms.length = pop.length ∧
+      res.length = pop.length ∧
+      ∀ i m, ms[i]? = some m →
+        (i = 0 ∧ s.mutate_elite = false ∧ m = s.no_mutation) ∨
+        (∃ q, (m, q) ∈ List.zip s.pretraining_mut_options s.pretraining_mut_proba ∧ 0 < q) := by
+  rw [gen_mutation_eq] at h
+  exact C20_evostep_pretraining_options (opsM o) (cfgM s) d pop res h
+
+/-- over the generated code: a process that is not the main one never raises because of the unbound `elite`: with
+    or without `save_elite` it writes no file and returns its old members reloaded from the main process's files -/
+theorem C20_source_translation_evostep_other_process_reloads {A M : Type} (o : AgentOps A M)
+    (select : List A → Option (A × List A)) (mutate : List A → Option (List A)) (pop : List A) (envName : String)
+    (algo : String) (elitePath : Option String) (saveElite llm : Bool) :
+    tournament_selection_and_mutation o pop select mutate envName (some algo) elitePath saveElite
+      (some { is_main_process := false }) llm =
+      some (((pop.map o.unwrap_models).mapIdx
+        (fun i a => o.load_checkpoint a (Evo.tempPath envName algo i))).map o.wrap_models, []) := by
+  have h := gen_tsm_eq o pop select mutate envName (some algo) elitePath saveElite (some { is_main_process := false }) llm
+  rw [show accelM (some { is_main_process := false }) = some false from rfl,
+    C20_evostep_other_process_reloads] at h
+  cases hh : tournament_selection_and_mutation o pop select mutate envName (some algo) elitePath saveElite
+      (some { is_main_process := false }) llm with
+  | none => rw [hh] at h; cases h
+  | some r =>
+    rw [hh] at h
+    obtain ⟨r1, r2⟩ := r
+    simp only [resM, Option.map_some, Option.some.injEq, Prod.mk.injEq, List.map_eq_nil_iff] at h
+    obtain ⟨h1, h2⟩ := h
+    subst h1; subst h2
+    rfl
+
+/-- over the generated code: for every population and BOTH values of `is_main_process` (and without accelerator)
+    the step returns a population whenever `select` and `mutation.mutation` do: the main process / the
+    accelerator-free run return the mutated selected population and save the elite `select` returned iff
+    `save_elite` (after the temporary files, on the main process); a process that is not the main one returns its
+    reloaded members and saves nothing -/
+theorem C20_source_translation_evostep_returns_population {A M : Type} (o : AgentOps A M)
+    (select : List A → Option (A × List A)) (mutate : List A → Option (List A)) (pop : List A)
+    (envName algo : String) (elitePath : Option String) (saveElite llm : Bool) (accel : Option Accelerator)
+    (elite : A) (sel r : List A)
+    (hs : select (Evo.entering (opsM o) (accelM accel) pop) = some (elite, sel)) (hm : mutate sel = some r) :
+    ∃ res ev, tournament_selection_and_mutation o pop select mutate envName (some algo) elitePath saveElite accel llm
+        = some (res, ev) ∧ res.length = (if accelM accel = some false then pop.length else r.length) ∧
+      ev.map evM =
+        if accelM accel = some false then []
+        else Evo.tempEvents (accelM accel) envName algo r ++
+             Evo.eliteEvents saveElite llm envName algo elitePath elite := by
+  have h := gen_tsm_eq o pop select mutate envName (some algo) elitePath saveElite accel llm
+  generalize accelM accel = ac at h hs ⊢
+  by_cases hacc : ac = some false
+  · rw [hacc, C20_evostep_other_process_reloads] at h
+    cases hh : tournament_selection_and_mutation o pop select mutate envName (some algo) elitePath saveElite accel llm with
+    | none => rw [hh] at h; cases h
+    | some x =>
+      rw [hh] at h
+      obtain ⟨res, ev⟩ := x
+      simp only [resM, Option.map_some, Option.some.injEq, Prod.mk.injEq] at h
+      refine ⟨res, ev, rfl, ?_, ?_⟩
+      · rw [if_pos hacc, h.1]; simp
+      · rw [if_pos hacc]; exact h.2
+  · rw [(C20_evostep_returns_and_saves (opsM o) select mutate pop envName algo elitePath saveElite ac llm
+      hacc elite sel r hs hm).1] at h
+    cases hh : tournament_selection_and_mutation o pop select mutate envName (some algo) elitePath saveElite accel llm with
+    | none => rw [hh] at h; cases h
+    | some x =>
+      rw [hh] at h
+      obtain ⟨res, ev⟩ := x
+      simp only [resM, Option.map_some, Option.some.injEq, Prod.mk.injEq] at h
+      refine ⟨res, ev, rfl, ?_, ?_⟩
+      · rw [if_neg hacc, h.1, Evo.leaving_length]
+      · rw [if_neg hacc]; exact h.2
+
+/-! non-vacuity: a population of (index, weights) pairs, three methods, elitist selection of member 1 -/
+section EvoExample
+abbrev XA := Nat × Nat           -- (index, weights)
+def xOps : AgentOps XA Nat :=
+  { class_name := fun _ => "DQN", unwrap_models := id, wrap_models := id, load_checkpoint := fun a _ => a,
+    call := fun m a => (a.1, a.2 + m), post := id }
+def xSelf : Mutations Nat :=
+  { pretraining_mut_options := [5, 7], mut_options := [0, 5, 7], pretraining_mut_proba := [1/2, 1/2],
+    mut_proba := [1/2, 1/4, 1/4], mutate_elite := false, no_mutation := 0 }
+/-- elite = member 1; new population: its clone (index kept) first, then clones with fresh indices -/
+def xSelect (p : List XA) : Option (XA × List XA) :=
+  match p with
+  | [a, b, c] => some (b, [b, (10, a.2), (11, b.2)])
+  | _ => none
+def xPop : List XA := [(0, 100), (1, 200), (2, 300)]
+
+-- the selected population mutated (not the old one): the elite (1, 200) untouched although 7 was drawn for it,
+-- members 1 and 2 of the SELECTED population changed by the methods drawn for them; the elite saved under the default name
+example : (tournament_selection_and_mutation xOps xPop xSelect (fun p => Mutations.mutation xOps xSelf p false [7, 5, 0])
+    "Env" none none true none false).map (fun r => (r.1, r.2.length)) = some ([(1, 200), (10, 105), (11, 200)], 1) := by
+  decide +kernel
+example : (tournament_selection_and_mutation xOps xPop xSelect (fun p => Mutations.mutation xOps xSelf p false [7, 5, 0])
+    "Env" (some "X") none true none false).map (fun r => r.2.map (fun e => match e with
+      | .save a p => (a, p) | .save_llm a _ => (a, "llm"))) = some [((1, 200), "Env-elite_X.pt")] := by
+  decide +kernel
+-- with mutate_elite the drawn 7 is applied to slot 0
+example : (tournament_selection_and_mutation xOps xPop xSelect
+    (fun p => Mutations.mutation xOps { xSelf with mutate_elite := true } p false [7, 5, 0])
+    "Env" none none false none false).map (·.1) = some [(1, 207), (10, 105), (11, 200)] := by decide +kernel
+-- a draw that `rng.choice` cannot return (3 is not an option; wrong length): not a run
+example : Mutations.mutation xOps xSelf xPop false [3, 5, 0] = none := by decide +kernel
+example : Mutations.mutation xOps xSelf xPop false [5, 0] = none := by decide +kernel
+-- pre-training: `no_mutation` (0) is not an option; 5 and 7 are
+example : Mutations.mutation xOps xSelf xPop true [0, 5, 7] = none := by decide +kernel
+example : Mutations.mutation xOps xSelf xPop true [7, 5, 7] = some [(0, 100), (1, 205), (2, 307)] := by decide +kernel
+-- main process: three temporary files, then the elite
+example : (tournament_selection_and_mutation xOps xPop xSelect (fun p => Mutations.mutation xOps xSelf p false [7, 5, 0])
+    "Env" none none true (some { is_main_process := true }) false).map (fun r => r.2.map (fun e => match e with
+      | .save _ p => p | .save_llm _ _ => "llm")) =
+    some ["models/Env/DQN_0.pt", "models/Env/DQN_1.pt", "models/Env/DQN_2.pt", "Env-elite_DQN.pt"] := by decide +kernel
+-- an empty population: `population[0]` raises
+example : tournament_selection_and_mutation xOps [] xSelect (fun p => Mutations.mutation xOps xSelf p false [])
+    "Env" none none false none false = none := by decide +kernel
+end EvoExample
+
+namespace EvoLoop
+open LoopGen LoopGenEq EvoStepGen EvoStepGenEq
+
+/-! ### 12. the training loops with the generated evolution step
+
+`Gen/LoopGen.lean` takes selection + mutation as an abstract function `tsm` (a field of the per-generation input).
+Here it is INSTANTIATED by the generated `tournament_selection_and_mutation` calling the generated
+`Mutations.mutation` (`evoTsm`), on the agents of the generated loops: a mutation method is (does it change the
+weights, the fresh name of the new weights), `select` is the tournament outcome `sel` applied as `Loop.select`
+describes it (the specification `Proofs/TournGenEq.lean` proves of the generated `TournamentSelection.select`),
+`unwrap / wrap / load_checkpoint` are the identity on the modelled fields (assumption), the per-individual tail `post`
+is the identity on them (C02).  `evoTsm_eq`: that instance IS the abstract function the accounting theorems were
+proved for, so they hold for the six generated loops running the generated evolution step. -/
+
+abbrev Meth := Bool × Nat
+
+def opsL : AgentOps LoopGen.Agent Meth :=
+  { class_name := fun _ => "Agent", unwrap_models := id, wrap_models := id, load_checkpoint := fun a _ => a,
+    call := fun m a => if m.1 then { a with tag := m.2 } else a, post := id }
+
+/-- the draw: member `i` gets (flag `i`, fresh name `nt + i`) -/
+def choiceL (flags : List Bool) (nt n : Nat) : List Meth :=
+  (List.range n).map (fun i => (flags.getD i false, nt + i))
+
+def selfL (c : Loop.Cfg) (ch : List Meth) : Mutations Meth :=
+  { pretraining_mut_options := [], pretraining_mut_proba := [],
+    mut_options := (false, 0) :: ch, mut_proba := List.replicate (ch.length + 1) 1,
+    mutate_elite := c.mutateElite, no_mutation := (false, 0) }
+
+def selectL (c : Loop.Cfg) (sl : Loop.Sel) (pop : List LoopGen.Agent) : Option (LoopGen.Agent × List LoopGen.Agent) :=
+  some (fromM ((pop.map (toM c.kind)).getD sl.elite default), (Loop.select c (pop.map (toM c.kind)) sl).map fromM)
+
+/-- selection + mutation of one generation by the generated code; an exception (only: `mutate_elite = False` and an
+    empty selected population — `evoTsm_raises_iff`) leaves no population -/
+def evoTsm (c : Loop.Cfg) (sel : Option Loop.Sel) (flags : List Bool) :
+    Nat → List LoopGen.Agent → Nat × List LoopGen.Agent :=
+  fun nt pop => match sel with
+    | none => (nt, pop)
+    | some sl =>
+      (nt + pop.length + 1,
+       match tournament_selection_and_mutation opsL pop (selectL c sl)
+          (fun p => Mutations.mutation opsL (selfL c (choiceL flags nt p.length)) p false (choiceL flags nt p.length))
+          "env" (some "algo") none false none false with
+       | some r => r.1
+       | none => [])
+
+theorem fromM_tag (a : Loop.Agent) (t : Nat) : fromM { a with tag := t } = { fromM a with tag := t } := rfl
+
+theorem range_succ_map {β : Type} (n : Nat) (f : Nat → β) :
+    (List.range (n + 1)).map f = f 0 :: (List.range n).map (fun i => f (i + 1)) := by
+  rw [List.range_succ_eq_map]; simp [List.map_map, Function.comp_def]
+
+/-- `mutateFrom` is the per-individual loop with the draw `(flag i, next + i)` -/
+theorem mutateFrom_eq : ∀ (T : List Loop.Agent) (fs : List Bool) (nx : Nat),
+    (Loop.mutateFrom nx T fs).map fromM =
+      List.zipWith (fun m a => opsL.post (opsL.call m a))
+        ((List.range T.length).map (fun i => (fs.getD i false, nx + i))) (T.map fromM)
+  | [], fs, nx => by simp [Loop.mutateFrom]
+  | a :: T, [], nx => by
+    have ih := mutateFrom_eq T [] (nx + 1)
+    have hT : Loop.mutateFrom (nx + 1) T [] = T := by cases T <;> rfl
+    rw [hT] at ih
+    simp only [Loop.mutateFrom, List.length_cons, range_succ_map, List.map_cons, List.zipWith_cons_cons]
+    congr 1
+    rw [ih]
+    congr 2
+    funext i
+    simp [Nat.add_assoc, Nat.add_comm 1 i]
+  | a :: T, f :: fs, nx => by
+    have ih := mutateFrom_eq T fs (nx + 1)
+    simp only [Loop.mutateFrom, List.length_cons, range_succ_map, List.map_cons, List.zipWith_cons_cons]
+    congr 1
+    · cases f <;> simp [opsL, fromM]
+    · rw [ih]
+      congr 2
+      funext i
+      simp [Nat.add_assoc, Nat.add_comm 1 i]
+
+theorem zip_replicate_one (l : List Meth) : List.zip l (List.replicate l.length (1 : Rat)) = l.map (fun m => (m, 1)) := by
+  induction l with
+  | nil => rfl
+  | cons a l ih => simp [List.replicate_succ, ih]
+
+/-- the draw `choiceL` is a possible result of `rng.choice` for the options `selfL` lists -/
+theorem drawOk_choiceL (c : Loop.Cfg) (ch : List Meth) (n : Nat) (h : ch.length = n) :
+    Evo.drawOk (Evo.optionsOf (cfgM (selfL c ch)) false) (Evo.probaOf (cfgM (selfL c ch)) false) n ch = true := by
+  have hz := zip_replicate_one ((false, 0) :: ch)
+  simp only [List.length_cons] at hz
+  show Evo.drawOk ((false, 0) :: ch) (List.replicate (ch.length + 1) 1) n ch = true
+  unfold Evo.drawOk
+  rw [hz]
+  simp only [h, decide_true, List.length_cons, List.length_replicate, Bool.true_and, List.all_eq_true,
+    List.any_eq_true, Bool.and_eq_true, beq_iff_eq, decide_eq_true_eq]
+  intro m hm
+  exact ⟨(m, 1), List.mem_map.mpr ⟨m, List.mem_cons_of_mem _ hm, rfl⟩, rfl, by show (0 : Rat) < 1; decide⟩
+
+theorem choiceL_succ (flags : List Bool) (nt n : Nat) :
+    choiceL flags nt (n + 1) =
+      (flags.getD 0 false, nt) :: (List.range n).map (fun i => (flags.tail.getD i false, nt + 1 + i)) := by
+  unfold choiceL
+  rw [range_succ_map]
+  congr 1
+  apply List.map_congr_left
+  intro i _
+  cases flags <;> simp [Nat.add_assoc, Nat.add_comm 1 i]
+
+theorem mutate_cons (c : Loop.Cfg) (nt : Nat) (a : Loop.Agent) (T : List Loop.Agent) (flags : List Bool) :
+    Loop.mutate c nt (a :: T) flags =
+      (if (flags.getD 0 false && c.mutateElite) = true then { a with tag := nt } else a) ::
+        Loop.mutateFrom (nt + 1) T flags.tail := by
+  cases flags with
+  | nil =>
+    have hT : Loop.mutateFrom (nt + 1) T [] = T := by cases T <;> rfl
+    simp [Loop.mutate, hT]
+  | cons f fs => simp [Loop.mutate]
+
+theorem mutateWith_cons (m0 : Meth) (a : Loop.Agent) (T : List Loop.Agent) (fs : List Bool) (nx : Nat) :
+    Evo.mutateWith (opsM opsL) (m0 :: (List.range T.length).map (fun i => (fs.getD i false, nx + i)))
+        (fromM a :: T.map fromM) =
+      opsL.call m0 (fromM a) :: (Loop.mutateFrom nx T fs).map fromM := by
+  rw [mutateFrom_eq]
+  simp [Evo.mutateWith, opsM, opsL]
+
+/-- the model's `mutate` is `Loop.Evo.mutation` with the draw `choiceL` (where that does not raise) -/
+theorem mutate_eq (c : Loop.Cfg) (nt : Nat) (T : List Loop.Agent) (flags : List Bool) :
+    (match Evo.mutation (opsM opsL) (cfgM (selfL c (choiceL flags nt T.length))) false (choiceL flags nt T.length)
+        (T.map fromM) with
+     | some r => r
+     | none => []) = (Loop.mutate c nt T flags).map fromM := by
+  have hd := drawOk_choiceL c (choiceL flags nt T.length) (T.map fromM).length (by simp [choiceL])
+  unfold Evo.mutation
+  rw [if_pos hd]
+  cases T with
+  | nil =>
+    cases hme : c.mutateElite <;> simp [Evo.applied, cfgM, selfL, choiceL, hme, Loop.mutate, Evo.mutateWith]
+  | cons a T =>
+    rw [mutate_cons, List.length_cons, choiceL_succ]
+    cases hme : c.mutateElite with
+    | true =>
+      have : Evo.applied (cfgM (selfL c ((flags.getD 0 false, nt) ::
+          (List.range T.length).map (fun i => (flags.tail.getD i false, nt + 1 + i)))))
+          ((flags.getD 0 false, nt) :: (List.range T.length).map (fun i => (flags.tail.getD i false, nt + 1 + i))) =
+          some ((flags.getD 0 false, nt) :: (List.range T.length).map (fun i => (flags.tail.getD i false, nt + 1 + i))) := by
+        simp [Evo.applied, cfgM, selfL, hme]
+      rw [this]
+      show Evo.mutateWith _ _ _ = _
+      rw [List.map_cons, mutateWith_cons, List.map_cons]
+      congr 1
+      cases flags.getD 0 false <;> simp [opsL, fromM]
+    | false =>
+      have : Evo.applied (cfgM (selfL c ((flags.getD 0 false, nt) ::
+          (List.range T.length).map (fun i => (flags.tail.getD i false, nt + 1 + i)))))
+          ((flags.getD 0 false, nt) :: (List.range T.length).map (fun i => (flags.tail.getD i false, nt + 1 + i))) =
+          some ((false, 0) :: (List.range T.length).map (fun i => (flags.tail.getD i false, nt + 1 + i))) := by
+        simp [Evo.applied, cfgM, selfL, hme]
+      rw [this]
+      show Evo.mutateWith _ _ _ = _
+      rw [List.map_cons, mutateWith_cons, List.map_cons]
+      congr 1
+      simp [opsL]
+
+/-- **the instance is the abstract function**: the generated evolution step, on the loop's agents, is the selection +
+    mutation the model (`LoopGenEq.tsmM`: `Loop.select` then `Loop.mutate`) describes — for every population, every
+    tournament outcome, every draw -/
+theorem evoTsm_eq (c : Loop.Cfg) (sel : Option Loop.Sel) (flags : List Bool) :
+    evoTsm c sel flags = tsmM c sel flags := by
+  funext nt pop
+  cases sel with
+  | none => rfl
+  | some sl =>
+    simp only [evoTsm, tsmM]
+    congr 1
+    have h := gen_tsm_eq opsL pop (selectL c sl)
+      (fun p => Mutations.mutation opsL (selfL c (choiceL flags nt p.length)) p false (choiceL flags nt p.length))
+      "env" (some "algo") none false none false
+    have hm : (fun p => Mutations.mutation opsL (selfL c (choiceL flags nt p.length)) p false (choiceL flags nt p.length)) =
+        (fun p => Evo.mutation (opsM opsL) (cfgM (selfL c (choiceL flags nt p.length))) false
+          (choiceL flags nt p.length) p) := by
+      funext p; exact gen_mutation_eq _ _ _ _ _
+    rw [hm] at h ⊢
+    have hme := mutate_eq c nt (Loop.select c (pop.map (toM c.kind)) sl) flags
+    simp only [resM, Evo.evoStep, accelM, selectL, Option.map_none, List.length_map] at h
+    rw [← hme]
+    cases hmu : Evo.mutation (opsM opsL)
+        (cfgM (selfL c (choiceL flags nt (Loop.select c (pop.map (toM c.kind)) sl).length))) false
+        (choiceL flags nt (Loop.select c (pop.map (toM c.kind)) sl).length)
+        ((Loop.select c (pop.map (toM c.kind)) sl).map fromM) with
+    | none =>
+      rw [hmu] at h
+      cases hg : tournament_selection_and_mutation opsL pop (selectL c sl)
+          (fun p => Evo.mutation (opsM opsL) (cfgM (selfL c (choiceL flags nt p.length))) false
+            (choiceL flags nt p.length) p) "env" (some "algo") none false none false with
+      | none => rfl
+      | some r => rw [hg] at h; cases h
+    | some res =>
+      rw [hmu] at h
+      cases hg : tournament_selection_and_mutation opsL pop (selectL c sl)
+          (fun p => Evo.mutation (opsM opsL) (cfgM (selfL c (choiceL flags nt p.length))) false
+            (choiceL flags nt p.length) p) "env" (some "algo") none false none false with
+      | none => rw [hg] at h; cases h
+      | some r =>
+        rw [hg] at h
+        simp only [Option.map_some, Option.some.injEq, Prod.mk.injEq] at h
+        exact h.1
+
+/-- the per-generation input of the generated loops with the generated evolution step as `tsm` -/
+def genInE (c : Loop.Cfg) (i : Loop.GenIn) : LoopGen.GenIn Nat :=
+  { hp := i.hp, in0 := i.above, tsm := evoTsm c i.sel i.mutated }
+
+theorem genInE_eq (c : Loop.Cfg) : genInE c = genIn c := by
+  funext i
+  simp only [genInE, genIn, evoTsm_eq]
+
+end EvoLoop
+
+open EvoLoop in
+/-- over the generated code, end to end: the six generated training loops, running the GENERATED evolution step
+    (`tournament_selection_and_mutation` + `Mutations.mutation`) on every generation that selects, are the model's `run` -/
+theorem C20_source_translation_evostep_run_eq (c : Cfg) (tm : Bool) (ins : List GenIn) (s : LoopGen.St Mem Nat)
+    (h : ∀ i ∈ ins, i.sel.isSome = tm) :
+    LoopGenEq.stM c.kind (LoopGenEq.genRun c.kind (LoopGenEq.params c tm true) (LoopGenEq.ops c) s
+      (ins.map (genInE c))) = run c (LoopGenEq.stM c.kind s) ins := by
+  rw [genInE_eq]; exact LoopGenEq.genRun_eq c tm ins s h
+
+open EvoLoop in
+/-- over the generated code, end to end — the main accounting theorem with the abstract evolution function
+    instantiated by the generated one: after any number of generations of any of the six generated training loops,
+    each running the generated `tournament_selection_and_mutation` / `Mutations.mutation`, every agent's `steps[-1]`
+    equals the environment steps its lineage took = `num_envs` × `env.step` calls -/
+theorem C20_source_translation_evostep_steps_equal_env_steps (c : Cfg) (tm : Bool) (ins : List GenIn)
+    (s : LoopGen.St Mem Nat) (hin : ∀ i ∈ ins, i.sel.isSome = tm)
+    (h : ∀ a ∈ s.pop, a.cur = gEnv c.kind a ∧ gEnv c.kind a = stride c * gIts c.kind a) :
+    ∀ a ∈ (LoopGenEq.genRun c.kind (LoopGenEq.params c tm true) (LoopGenEq.ops c) s (ins.map (genInE c))).pop,
+      a.cur = gEnv c.kind a ∧ gEnv c.kind a = stride c * gIts c.kind a := by
+  rw [genInE_eq]; exact C20_source_translation_steps_equal_env_steps c tm ins s hin h
+
+open EvoLoop in
+/-- over the generated code, end to end: size and distinct indices of the population through any number of
+    generations of the generated loops running the generated evolution step -/
+theorem C20_source_translation_evostep_population_size_indices (c : Cfg) (tm : Bool) (n : Nat) (ins : List GenIn)
+    (s : LoopGen.St Mem Nat) (hin : ∀ i ∈ ins, i.sel.isSome = tm) (hn : s.pop.length = n)
+    (hd : (s.pop.map (·.index)).Nodup)
+    (hv : ∀ i ∈ ins, ∀ sel, i.sel = some sel → sel.valid c.elitism n) :
+    let r := LoopGenEq.genRun c.kind (LoopGenEq.params c tm true) (LoopGenEq.ops c) s (ins.map (genInE c))
+    r.pop.length = n ∧ (r.pop.map (·.index)).Nodup := by
+  rw [genInE_eq]; exact C20_source_translation_population_size_indices c tm n ins s hin hn hd hv
+
+-- the generated `train_off_policy` running the generated evolution step: the example of section 9 again
+example : (LoopGen.Off.run (LoopGenEq.params exCfg true true) (LoopGenEq.ops exCfg) exGen
+    ([exIn, exIn, exIn, exIn].map (EvoLoop.genInE exCfg))).pop.map (fun a => (a.index, a.cur, a.tag)) =
+    [(3, 24, 1004), (4, 24, 1007)] := by decide +kernel
 
 end Loop
